@@ -236,6 +236,7 @@ private:
     static const Type* resolvedSynonymOf(const Type* tydefNameTy);
     static const Type* resolved(const Type* ty);
     static const Type* unqualifiedAndResolved(const Type* ty);
+    const Type* valueTypeOf(const Type* ty);
 
     const Type* typeOfStringLiteral(StringLiteral::EncodingPrefix encodingSuffix);
 
